@@ -139,6 +139,11 @@ def generate(spec: str, cfg: str, prefix: str, dest: str, **kw) -> dict:
                     out.write(txt[len(prefix) + 1:] + "\n")
                     n += 1
         res["emitted"] = n
+        # TLC's workers print in scheduling order: put the cases into a canonical order, so
+        # that every seeded sampler downstream picks the same cases on every run
+        if n > 1:
+            subprocess.run(["sort", "-S", "1G", "-T", wd, "-o", dest, dest], check=True,
+                           env=dict(os.environ, LC_ALL="C"))
         res["ok"] = (res["rc"] == 0 and not res["error"])
         if not res["ok"]:
             raise MachineryError(
